@@ -100,6 +100,15 @@ func (x *Idx) WaitPersisted() *Failure {
 	}
 }
 
+// NoStored reports whether observations made while this writer is open must not load stored
+// fields: with segment version 2 a stored-field read that races with a background merge of the
+// same segment makes the MERGE copy garbage into the new segment (ice/v2 keeps one stored-field
+// decompression buffer per segment, shared by searches and by the merge's document copy), i.e.
+// the harness's own read would corrupt the index.  That class (segment version 2 x merging
+// enabled x stored-field reads while the writer runs) is excluded by construction and shown by
+// the dedicated C15 probe instead.
+func (x *Idx) NoStored() bool { return x.Conf.SegVer == 2 && x.Conf.Merge != "none" }
+
 // Reader takes a near-real-time reader.
 func (x *Idx) Reader() (*bluge.Reader, *Failure) {
 	r, err := x.W.Reader()
@@ -118,7 +127,14 @@ func (x *Idx) ObserveNow(ids []string) (*Obs, *Failure) {
 	defer r.Close()
 	var o *Obs
 	var err error
-	if f := Watchdog("observe", CallBound, func() *Failure { o, err = Observe(r, ids); return nil }); f != nil {
+	if f := Watchdog("observe", CallBound, func() *Failure {
+		if x.NoStored() {
+			o, err = ObserveNoStored(r, ids)
+		} else {
+			o, err = Observe(r, ids)
+		}
+		return nil
+	}); f != nil {
 		return nil, f
 	}
 	if err != nil {
